@@ -401,6 +401,9 @@ class LayoutTyper(Structured):
                 return inner
         if isinstance(ax, ast.Call) and isinstance(ax.func, ast.Name) and ax.func.id in ('tuple', 'list') \
                 and len(ax.args) == 1:
+            whole = self.ev(ax, env, quiet=True)           # tuple(D.attrs.index(a) for a in S) is D.axes(S)
+            if whole.kind == 'axes':
+                return whole
             return self.axis_value(ax.args[0], env)
         if isinstance(ax, ast.Name):
             return env.get(ax.id, UNK)
@@ -687,6 +690,17 @@ class LayoutTyper(Structured):
         if not isinstance(e, (ast.ListComp, ast.GeneratorExp)) or len(e.generators) != 1 or e.generators[0].ifs:
             return None
         g = e.generators[0]
+        zipped_size = None
+        if isinstance(g.target, ast.Tuple) and len(g.target.elts) == 2 and all(isinstance(x, ast.Name) for x in g.target.elts) \
+                and isinstance(g.iter, ast.Call) and U(g.iter.func) == 'zip' and len(g.iter.args) == 2 and isinstance(e.elt, ast.IfExp):
+            # (n if a in X else 1 for a, n in zip(E.attrs, E.shape)): the size comes along with the attribute
+            ia, ish = g.iter.args
+            E1 = self.dom_term(ia.value, env) if isinstance(ia, ast.Attribute) and ia.attr == 'attrs' else self.dom_term(ia, env)
+            E2 = self.dom_term(ish.value, env) if isinstance(ish, ast.Attribute) and ish.attr == 'shape' else None
+            if E1 is None or E1 != E2:
+                return None
+            zipped_size = g.target.elts[1].id
+            g = ast.comprehension(target=g.target.elts[0], iter=ia, ifs=[], is_async=0)
         if not isinstance(g.target, ast.Name) or not isinstance(e.elt, ast.IfExp):
             return None
         a = g.target.id
@@ -714,6 +728,8 @@ class LayoutTyper(Structured):
                                                             and self.dom_term(body.value.value, env) == E))) or \
                   (isinstance(body, ast.Call) and isinstance(body.func, ast.Attribute) and body.func.attr == 'size'
                    and self.dom_term(body.func.value, env) == E and len(body.args) == 1 and U(body.args[0]) in (a, '[%s]' % a))
+        if zipped_size is not None:
+            size_ok = isinstance(body, ast.Name) and body.id == zipped_size
         if not size_ok:
             return None
         return E, self.attrs_term(t.comparators[0], env)
